@@ -15,15 +15,16 @@ table after `n - 1` rounds holds, for every node `t`, exactly the minimum of the
 (chains) from `s` to `t`; an empty entry means that `t` is not connected to `s`.  This is what the
 judge compares the implementation's route cost with ("cost … minimal over all such chains",
 "when the two nodes are not connected"). -/
-theorem bellmanFord_correct (G : Graph α) (n s : Nat) (hw : NonnegW G) (hr : InRange G n) (hs : s < n) (t : Nat) :
-    (∀ c, look (bellmanFord G n s) t = some c ↔ IsMinCost G s t c) ∧
-    (look (bellmanFord G n s) t = none ↔ ¬ Reachable G s t) := by
-  have hle := bellmanFord_le G n s hw hr hs
+theorem bellmanFord_correct (G : Graph α) (preds : Nat → List Nat) (hpr : PredsOk G preds) (n s : Nat)
+    (hw : NonnegW G) (hr : InRange G n) (hs : s < n) (t : Nat) :
+    (∀ c, look (bellmanFord G preds n s) t = some c ↔ IsMinCost G s t c) ∧
+    (look (bellmanFord G preds n s) t = none ↔ ¬ Reachable G s t) := by
+  have hle := bellmanFord_le G preds hpr n s hw hr hs
   constructor
   · intro c
     constructor
     · intro h
-      refine ⟨bfIter_sound G n s _ t c h, ?_⟩
+      refine ⟨bfIter_sound G preds n s _ t c h, ?_⟩
       intro p hp he
       obtain ⟨y, hy, hyc⟩ := hle p hp
       rw [he, h] at hy
@@ -31,7 +32,7 @@ theorem bellmanFord_correct (G : Graph α) (n s : Nat) (hw : NonnegW G) (hr : In
     · rintro ⟨⟨p, hp, he, hc⟩, hmin⟩
       obtain ⟨y, hy, hyc⟩ := hle p hp
       rw [he] at hy
-      obtain ⟨q, hq, hqe, hqc⟩ := bfIter_sound G n s _ t y hy
+      obtain ⟨q, hq, hqe, hqc⟩ := bfIter_sound G preds n s _ t y hy
       have := hmin q hq hqe
       have : y = c := le_antisymm (by rw [← hc]; exact hyc) (by rw [← hqc]; exact this)
       rw [hy, this]
@@ -41,10 +42,10 @@ theorem bellmanFord_correct (G : Graph α) (n s : Nat) (hw : NonnegW G) (hr : In
       rw [he, h] at hy
       cases hy
     · intro h
-      cases hl : look (bellmanFord G n s) t with
+      cases hl : look (bellmanFord G preds n s) t with
       | none => rfl
       | some c =>
-        obtain ⟨q, hq, hqe, _⟩ := bfIter_sound G n s _ t c hl
+        obtain ⟨q, hq, hqe, _⟩ := bfIter_sound G preds n s _ t c hl
         exact absurd ⟨q, hq, hqe⟩ h
 
 
@@ -342,6 +343,45 @@ theorem C19_built (geo : Geo α) (pick : Pick α) (ord : Nat → List Nat → Li
   obtain ⟨hwf, hspeed⟩ := build_wf geo hc o ls net hsp hb
   exact C19_route geo pick ord net from_ to_ s t hP hord hwf hnp hc.nearestMem hs ht
     (heuristic_consistent geo net ord hord hwf ⟨htri, hchord, hspeed⟩ t.id) hconn
+
+/-- **Answers do not depend on the query history.**  In any history of `AddLink` and `ShortestRoute`
+calls on one network (`runOps`), the answer to a query is `shortestRoute` on the network built from
+exactly the links added before it — whatever was asked earlier.  Together with `C19_built` this is
+the property for "networks built by ANY sequence of AddLink calls" when calls are interleaved; the
+correspondence run asks the real code the same query again after further links (stale caches). -/
+theorem C19_history (geo : Geo α) (pick : Pick α) (iw : Bool) (ord : Nat → List Nat → List Nat)
+    (pre post : List (Op α)) (a b : Pt α) (net : Net α) (i : Nat) (rs : List (Except Fault (Route α)))
+    (h : runOps geo pick iw ord net i (pre ++ Op.query a b :: post) = .ok rs) :
+    ∃ net', buildFrom geo net i (linksOf pre) = .ok net' ∧
+      rs[queriesIn pre]? = some (shortestRoute geo pick iw ord net' a b) := by
+  induction pre generalizing net i rs with
+  | nil =>
+    simp only [List.nil_append, runOps] at h
+    cases hr : runOps geo pick iw ord net i post with
+    | error e => simp [hr] at h
+    | ok rs' =>
+      simp only [hr, Except.ok.injEq] at h
+      subst h
+      exact ⟨net, rfl, by simp [queriesIn]⟩
+  | cons o pre ih =>
+    cases o with
+    | link l =>
+      simp only [List.cons_append, runOps] at h
+      cases ha : addLink geo net i l with
+      | error e => simp [ha] at h
+      | ok net1 =>
+        simp only [ha] at h
+        obtain ⟨net', h1, h2⟩ := ih net1 (i + 1) rs h
+        exact ⟨net', by simp [linksOf, buildFrom, ha, h1], by simpa [queriesIn] using h2⟩
+    | query a' b' =>
+      simp only [List.cons_append, runOps] at h
+      cases hr : runOps geo pick iw ord net i (pre ++ Op.query a b :: post) with
+      | error e => simp [hr] at h
+      | ok rs' =>
+        simp only [hr, Except.ok.injEq] at h
+        subst h
+        obtain ⟨net', h1, h2⟩ := ih net i rs' hr
+        exact ⟨net', by simpa [linksOf] using h1, by simpa [queriesIn] using h2⟩
 
 /-! ### non-vacuity: the hypotheses are satisfiable together (a two-link network over ℚ) -/
 
